@@ -268,7 +268,7 @@ prop(
     design_ref="DESIGN.md §4 C19",
     level_text="exploration with an independent oracle: validate(encode(decode(d))) and validate(encode(ExpandSpec(decode(d)))) for validator-approved d; an invalid result is tolerated only if re-inserting exactly the dropped empty required strings makes it valid again (known finding K5), judged by the validator itself",
     level_note="trusts python-jsonschema 4.x's Draft-4 implementation (format assertions off) and the meta-schema files under /repo/schemas; documents with an unfounded parameter/response/path item are exempt from the expansion half, as the statement says",
-    quick=dict(checks=400, shards=8),
+    quick=dict(checks=1000, shards=8),
     thorough=dict(checks=2500, shards=16),
 )
 
